@@ -6,7 +6,8 @@
    settlement with `a` pending bets queued up to and including its own has all its bets settled and has left that queue after
    a / batch + 1 end blocks; a book queued for payment with `a` unpaid participations queued up to and including its own is marked
    settled, every participation paid, out of both queues and with nothing left in custody, after a / batch + 1 end blocks -- whatever
-   other transactions and blocks come in between.  Both rest on the work-conserving law of one end-blocker run and on the frame
+   other transactions and blocks come in between; C05_settled_within composes the two: a resolved market is completely settled after
+   (pending bets ahead / bet batch + 1) + (unpaid participations ahead / book batch + 1) end blocks.  All rest on the work-conserving law of one end-blocker run and on the frame
    "no transaction touches the queued work of a resolved market" proved for every message handler.
    Independence of the batch sizes and of the interleaving (C05_settlement_conserves, C05_settlement_determined; Proofs/Entitle.v):
    ent x a = what account a is still to receive out of custody from the settlement of the resolved market x, computed from the market's
@@ -98,6 +99,25 @@ Theorem C05_book_settled_within : forall P bk supply vault MP t0 sw sd,
     owed_pool x = 0 /\ owed_hfee x = 0 /\ owed_bfee x = 0.
 Proof. exact book_done_within. Qed.
 Print Assumptions C05_book_settled_within.
+
+(* from resolution to the settled book in one bound: queued_parts s m = number of unpaid participations queued up to and including m over
+   both settlement queues read as one list (payment queue first); it never grows while m waits *)
+Theorem C05_settled_within : forall P bk supply vault MP t0 sw sd,
+  pr_bet_fee P <= pr_bet_min P -> 0 <= pr_bet_fee P ->
+  bget bk POOL = 0 -> bget bk HOUSEFEE = 0 -> bget bk BETFEE = 0 -> (forall a, SUBBASE <= a -> 0 <= bget bk a) ->
+  mparams_valid MP = true -> 0 < pr_bet_batch P -> 0 < pr_ob_batch P ->
+  forall ops1 ops2 m, Forall user_op ops1 -> Forall user_op ops2 ->
+  In m (c_mqueue (run (init bk supply P vault MP t0 sw sd) ops1)) ->
+  (bets_measure (run (init bk supply P vault MP t0 sw sd) ops1) m / pr_bet_batch P + 1) +
+  (queued_parts (run (init bk supply P vault MP t0 sw sd) ops1) m / pr_ob_batch P + 1) <= count_end ops2 ->
+  exists x, get_ms (run (init bk supply P vault MP t0 sw sd) (ops1 ++ ops2)) m = Some x /\ bk_status (ms_book x) = BK_SETTLED /\
+    (forall p, In p (bk_parts (ms_book x)) -> p_settled p = true) /\
+    ms_pending x = [] /\ (forall b, In b (ms_bets x) -> b_status b = BS_SETTLED) /\
+    ~ In m (c_mqueue (run (init bk supply P vault MP t0 sw sd) (ops1 ++ ops2))) /\
+    ~ In m (c_bqueue (run (init bk supply P vault MP t0 sw sd) (ops1 ++ ops2))) /\
+    owed_pool x = 0 /\ owed_hfee x = 0 /\ owed_bfee x = 0.
+Proof. exact fully_settled_within. Qed.
+Print Assumptions C05_settled_within.
 
 (* one run of each end blocker is work-conserving: with budget n it takes exactly n units of the work queued up to and including a
    market, or moves the market on (the laws the two bounds are built from) *)
